@@ -495,16 +495,18 @@ where
         feature_class: u64,
         only_baked: bool,
     ) -> (TrackDistanceOk<OA>, TrackDistanceErr<OA>) {
-        let tracks_vec = self.fetch_tracks(tracks);
+        // The subjects stay in the store while the shard workers scan it: they are compared with
+        // every other stored track (including one another, the same-id pair is skipped by the
+        // workers) and the store is never observed without them.
+        let tracks_vec = tracks
+            .iter()
+            .filter_map(|track_id| self.get_store(*track_id as usize).get(track_id).cloned())
+            .collect::<Vec<_>>();
 
-        let res = self.foreign_track_distances(tracks_vec.clone(), feature_class, only_baked);
+        let res = self.foreign_track_distances(tracks_vec, feature_class, only_baked);
 
         #[cfg(similari_verif)]
-        crate::verif::point("store.owned.sent", tracks_vec.len() as u64);
-
-        for t in tracks_vec {
-            self.add_track(t).unwrap();
-        }
+        crate::verif::point("store.owned.sent", tracks.len() as u64);
 
         res
     }
